@@ -116,8 +116,8 @@ class KeyCondition(Condition):
         return json_serialization.dataclass_json_dict(self)
 
     @classmethod
-    def _from_json_dict_(cls, key, **kwargs):
-        return cls(key=key)
+    def _from_json_dict_(cls, key, index=-1, **kwargs):
+        return cls(key=key, index=index)
 
     @property
     def qasm(self):
